@@ -119,11 +119,9 @@ func (s *Set) Dispatch(cfg Config, method, host, path, decodedPath string, m Mat
 	if method == "OPTIONS" && cfg.AutoOptions {
 		var allow []string
 		if path == "*" {
-			for _, mm := range s.Methods() {
-				if mm != "OPTIONS" {
-					allow = append(allow, mm)
-				}
-			}
+			// every method that has routes - OPTIONS itself included (it is added below anyway; a router whose only
+			// routes are OPTIONS routes still has "a method that has routes")
+			allow = append(allow, s.Methods()...)
 		} else {
 			for _, mm := range s.Methods() {
 				if s.serves(mm, host, path, o) {
